@@ -20,10 +20,11 @@ Record nest_case := mk_nest
   ; no_awaiting : list N
   ; no_handlers : list N
   ; no_flags : list bool                (* is_awaiting of the deferred objects nc_ids, afterwards *)
-  ; no_latches : list bool }.           (* is_error_condition of the instances nc_ids (false if never created) *)
+  ; no_latches : list bool              (* is_error_condition of the instances nc_ids (false if never created) *)
+  ; no_nry : list N }.                  (* the objects held by try_compute.not_ready_yet afterwards, latest first *)
 
 Definition start (c : nest_case) : mstate :=
-  mk_mstate (mk_gstate (nc_depth0 c) [] (fun _ => false) []) (fun _ => false).
+  mk_mstate (mk_gstate (nc_depth0 c) [] (fun _ => false) [] []) (fun _ => false).
 
 Definition corr_nest (c : nest_case) : bool :=
   let r := eval (nc_prog c) (start c) in
@@ -32,7 +33,8 @@ Definition corr_nest (c : nest_case) : bool :=
   list_eqb N.eqb (awaiting (g (snd r))) (no_awaiting c) &&
   list_eqb N.eqb (handlers (g (snd r))) (no_handlers c) &&
   list_eqb Bool.eqb (map (flags (g (snd r))) (nc_ids c)) (no_flags c) &&
-  list_eqb Bool.eqb (map (latches (snd r)) (nc_ids c)) (no_latches c).
+  list_eqb Bool.eqb (map (latches (snd r)) (nc_ids c)) (no_latches c) &&
+  list_eqb N.eqb (nry (g (snd r))) (no_nry c).
 
 (* the property on the observation alone: the module-level state is what it was *)
 Definition prop_nest (c : nest_case) : bool :=
